@@ -163,13 +163,13 @@ def _nt_served(hist) -> bool:
 
 FAMILY: Dict[str, Dict[str, Any]] = {
     "C01": dict(
-        shapes=lambda tier: shp.quick_shapes() + shp.callarg_shapes() + shp.random_shapes(4 if tier == "quick" else 60, common.seed()), plans=lambda tier: P_EDIT if tier == "quick" else P_EDIT_THOROUGH,
+        shapes=lambda tier: shp.quick_shapes() + shp.callarg_shapes() + shp.random_shapes(4 if tier == "quick" else 30, common.seed()), plans=lambda tier: P_EDIT if tier == "quick" else P_EDIT_THOROUGH,
         variants=lambda tier: std_variants(tier, True), oracle=oracles.c01, nontrivial=_nt_served,
         rule="history = TLC-enumerated complete plan over one shape; non-trivial when the specification predicts at "
              "least one node served from the store in a later evaluation (a stale result would be observable); "
              "distinct by (shape, sequence of edits/evaluations, store kind, realisation)"),
     "C02": dict(
-        shapes=lambda tier: shp.quick_shapes() + shp.callarg_shapes() + shp.random_shapes(4 if tier == "quick" else 60, common.seed() + 1), plans=lambda tier: P_EDIT if tier == "quick" else P_EDIT_THOROUGH,
+        shapes=lambda tier: shp.quick_shapes() + shp.callarg_shapes() + shp.random_shapes(4 if tier == "quick" else 30, common.seed() + 1), plans=lambda tier: P_EDIT if tier == "quick" else P_EDIT_THOROUGH,
         variants=lambda tier: std_variants(tier, False), oracle=oracles.c02, nontrivial=_nt_served, store_kw=True,
         rule="history as C01; non-trivial when it contains an evaluation after an edit / revert / restart / style "
              "switch for which the specification predicts at least one kept node NOT executed"),
@@ -346,7 +346,7 @@ def run_family(prop: str, tier: str) -> int:
     total = 0
     nontriv = set()
     ref_checked = 0
-    t_budget = 70 if tier == "quick" else 1500
+    t_budget = 70 if tier == "quick" else 900
     t0 = time.time()
     proto_traces: List[Any] = []
     drift = 0
